@@ -5,19 +5,20 @@
 # With INPLACE=1 the patch is applied to /repo itself (git apply) and undone afterwards (git checkout -- .).
 # Prints one line per check: CAUGHT (exit 1) / MISSED (exit 0) / HARNESS (exit 2).
 patch="$(readlink -f "$1")"; shift
+VR="$(cd "$(dirname "$0")/.." && pwd)"   # the harness tree this script belongs to (/verif, or a working copy of it)
 name="$(basename "$(dirname "$patch")")"
 if [ -n "${INPLACE:-}" ]; then
-  cd /verif || exit 2
+  cd "$VR" || exit 2
   if [ -n "$(git -C /repo status --porcelain)" ]; then echo "/repo not clean"; exit 2; fi
   git -C /repo apply "$patch" || { echo "patch does not apply"; exit 2; }
   trap 'git -C /repo checkout -- . ; git -C /repo clean -fdq' EXIT
-  V=/verif
+  V="$VR"
 else
   T=$(mktemp -d /tmp/tm.XXXXXX)
   trap 'rm -rf "$T"' EXIT
   rsync -a --exclude .git /repo/ "$T/repo/"
   ( cd "$T/repo" && git apply "$patch" ) || { echo "patch does not apply: $patch"; exit 2; }
-  rsync -a --exclude .git --exclude .bin --exclude replays --exclude scratch /verif/ "$T/verif/"
+  rsync -a --exclude .git --exclude .bin --exclude replays --exclude scratch --exclude .git "$VR/" "$T/verif/"
   sed -i "s#=> /repo#=> $T/repo#" "$T/verif/harness/go.mod"
   V="$T/verif"
 fi
